@@ -89,34 +89,90 @@ Definition conf_eqb (a b : conf) : bool :=
   String.eqb (ttl a) (ttl b) && String.eqb (disk_type a) (disk_type b) &&
   Bool.eqb (fsync a) (fsync b) && N.eqb (growth a) (growth b) && Bool.eqb (read_only a) (read_only b).
 
+Definition rule_eqb (a b : rule) : bool := String.eqb (fst a) (fst b) && conf_eqb (snd a) (snd b).
+
+(* ---- the declarative oracle, executable: "v is the value of a longest matching rule
+   that sets the field, or the default when no matching rule sets it" ---- *)
+Definition cands (set : conf -> bool) (rs : rules) (path : string) : list rule :=
+  filter (fun r => String.prefix (fst r) path && set (snd r)) rs.
+
+Definition field_ok {A} (eqb : A -> A -> bool) (set : conf -> bool) (get : conf -> A) (dflt : A)
+    (rs : rules) (path : string) (v : A) : bool :=
+  match cands set rs path with
+  | [] => eqb v dflt
+  | cs => existsb (fun r => eqb v (get (snd r)) &&
+                   forallb (fun r' => Nat.leb (String.length (fst r')) (String.length (fst r))) cs) cs
+  end.
+
+Definition match_ok (rs : rules) (path : string) (c : conf) : bool :=
+  field_ok String.eqb set_collection collection "" rs path (collection c) &&
+  field_ok String.eqb set_replication replication "" rs path (replication c) &&
+  field_ok String.eqb set_ttl ttl "" rs path (ttl c) &&
+  field_ok String.eqb set_disk_type disk_type "" rs path (disk_type c) &&
+  field_ok Bool.eqb set_fsync fsync false rs path (fsync c) &&
+  field_ok N.eqb set_growth growth 0%N rs path (growth c) &&
+  field_ok Bool.eqb set_read_only read_only false rs path (read_only c).
+
+(* ---- ToProto: ptrie.Walk visits the stored keys in byte-lexicographic order
+   (pre-order over children sorted by first byte) ---- *)
+Fixpoint insert_by_key (r : rule) (l : list rule) : list rule :=
+  match l with
+  | [] => [r]
+  | x :: l' => if String.leb (fst r) (fst x) then r :: l else x :: insert_by_key r l'
+  end.
+Definition dump (rs : rules) : list rule := fold_right insert_by_key [] rs.
+
 (* ---- operation histories ---- *)
 Inductive op :=
-| Add (p : string) (c : conf)
-| Del (p : string)
-| Match (path : string).
+| Add (p : string) (c : conf)     (* AddLocationConf of a conf whose LocationPrefix is p *)
+| Del (p : string)                (* DeleteLocationConf *)
+| Match (path : string)           (* MatchStorageRule *)
+| Load (l : list rule)            (* LoadFromBytes of a filer.conf with these locations, into the same FilerConf *)
+| Reload                          (* ToText, then LoadFromBytes of that text into a fresh FilerConf which replaces this one *)
+| LoadBad                         (* LoadFromBytes of text that is not a filer.conf *)
+| Dump.                           (* ToProto *)
 
-Definition step (rs : rules) (o : op) : rules * option conf :=
-  match o with
-  | Add p c => (put rs p c, None)
-  | Del p => (del rs p, None)
-  | Match path => (rs, Some (match_rule rs path))
+Inductive obs :=
+| ODone                           (* returned, err = nil *)
+| OPanic                          (* the call panicked (ptrie.Put indexes key[0]) *)
+| OErr                            (* returned an error *)
+| OConf (lp : string) (c : conf)  (* the PathConf returned by MatchStorageRule, with its LocationPrefix *)
+| ORules (l : list rule).         (* ToProto().Locations in order: (LocationPrefix, settings) *)
+
+(* doLoadConf: AddLocationConf one by one; an empty prefix panics out of the loop *)
+Fixpoint load (rs : rules) (l : list rule) : rules * obs :=
+  match l with
+  | [] => (rs, ODone)
+  | r :: l' => if str_nonempty (fst r) then load (put rs (fst r) (snd r)) l' else (rs, OPanic)
   end.
 
-Fixpoint run (rs : rules) (ops : list op) : list (option conf) :=
+(* finding 0: an empty location prefix *)
+Definition op_empty_prefix (o : op) : bool :=
+  match o with
+  | Add p _ => negb (str_nonempty p)
+  | Load l => existsb (fun r => negb (str_nonempty (fst r))) l
+  | _ => false
+  end.
+
+Definition step_with (m : rules -> string -> conf) (rs : rules) (o : op) : rules * obs :=
+  match o with
+  | Add p c => if str_nonempty p then (put rs p c, ODone) else (rs, OPanic)
+  | Del p => (del rs p, ODone)
+  | Match path => (rs, OConf "" (m rs path))
+  | Load l => load rs l
+  | Reload => load [] (dump rs)
+  | LoadBad => (rs, OErr)
+  | Dump => (rs, ORules (dump rs))
+  end.
+
+Fixpoint run_with (m : rules -> string -> conf) (rs : rules) (ops : list op) : list obs :=
   match ops with
   | [] => []
-  | o :: ops' => let '(rs', out) := step rs o in out :: run rs' ops'
+  | o :: ops' => let '(rs', out) := step_with m rs o in out :: run_with m rs' ops'
   end.
 
+Definition step := step_with match_rule.
+Definition run := run_with match_rule.
 (* the same history through the reference resolver *)
-Definition ref_step (rs : rules) (o : op) : rules * option conf :=
-  match o with
-  | Add p c => (put rs p c, None)
-  | Del p => (del rs p, None)
-  | Match path => (rs, Some (ref_match rs path))
-  end.
-Fixpoint ref_run (rs : rules) (ops : list op) : list (option conf) :=
-  match ops with
-  | [] => []
-  | o :: ops' => let '(rs', out) := ref_step rs o in out :: ref_run rs' ops'
-  end.
+Definition ref_step := step_with ref_match.
+Definition ref_run := run_with ref_match.
